@@ -573,9 +573,10 @@ class Pregex():
             source = self.__extract_text(source)
         split_list, index = list(), 0
         for groups in self.iterate_captures_and_pos(source, include_empty):
+            # groups are numbered by their opening parenthesis, which need not be
+            # the order in which they captured (e.g. "(?:(a)|(b))+" on "ba").
+            groups = sorted((g for g in groups if g[0] is not None), key=lambda g: g[1:])
             for group, start, end in groups:
-                if group is None:
-                    continue
                 split_list.append(source[index:start])
                 index = end
         split_list.append(source[index:])
